@@ -50,7 +50,7 @@ def gen(rng, tier):
     # distances (square roots: doubles, passed as exact rationals) and the evalpts are inputs of the
     # model op, which re-evaluates the grid, looks each consecutive pair up and folds
     for _ in range(25 if tier == 'quick' else 300):
-        d = S.rand_curve(rng, maxp=4, allow_range=False, clamped=rng.random() < .8)
+        d = S.rand_curve(rng, maxp=4, allow_range=(rng.random() < .4), clamped=rng.random() < .8)   # also knot ranges other than [0,1]
         n = rng.choice([2, 2, 3, 5, 8, 13, rng.randint(2, 24)])
         delta = (d['kv'][d['n']] - d['kv'][d['p']]) / n
         if delta >= 1 or delta <= 0:
